@@ -94,6 +94,10 @@ Definition dval_eqb (a b : dval) : bool :=
   match a, b with
   | DCa x, DCa y => Nat.eqb x y
   | DFn, DFn => true
+  | DAnns x, DAnns y =>
+      (* the NESTED dict is compared deeply (as a set of name/type pairs) *)
+      forallb (fun e => existsb (ann_eqb (fst e, Some (snd e))) (map (fun z => (fst z, Some (snd z))) y)) x &&
+      forallb (fun e => existsb (ann_eqb (fst e, Some (snd e))) (map (fun z => (fst z, Some (snd z))) x)) y
   | _, _ => false
   end.
 
